@@ -39,7 +39,7 @@ def generate(rng, tier, shard, nshards):
         syms = rng.sample(CHARS, rng.choice([2, 3])) + ([rng.choice(["ab", "éa", "aü"])] if i % 4 == 0 else [])
         names = [gops.tname(x) for x in syms]
         Mb = aops.rand_wfsa(rng, srn, nS=rng.choice([2, 3]), narcs=rng.choice([2, 3, 4]), labels=tuple(names) + ("",), **kw)
-        yield aops.event("tobytes", {"sr": srn, "M": Mb, "L": 3 if tier == "quick" else 5, "style": style},
+        yield aops.event("tobytes", {"sr": srn, "M": Mb, "L": 3 if tier == "quick" else 4, "style": style},
                          site="WFSA.to_bytes", feat="multibyte" if any(len(s.encode()) > 1 for s in syms) else "ascii")
         R = gops.SR[srn]
         shape = "acyclic" if srn in ("RatU", "Rat") else "any"
